@@ -37,9 +37,36 @@ ASSUMPTIONS = [
     'what makes the final correction of set_PH exact',
     'vapour fraction V of a specification = vaporised fraction of the chemicals in equilibrium (the doctests pin this)',
     'float tolerance of the step comparison 1e-9 relative (libm exp/log vs numpy)',
+    '`call` line: the model computes T and P only where they come from the specification, Psat(T), Tsat(P) or the previous '
+    'state; a field delivered by a numerical solve is answered NaN (= unconstrained) and not compared',
+    '`scale` line: the homogeneity of write-back and set-up is checked by the driver on its own definitions (a driver '
+    'self-check); what ties it to the code is only z = mol/F_mol and F_mol against the recorded values — the scaling clause on '
+    'the real code is decided by the oracle (k·feed replicas and rescale-and-flash-again histories)',
+    'clauses decided by correspondence + oracle, not by proof: V met within the solver resolution; phase boundary and '
+    'iso-fugacity with activity coefficients / Poynting factors at the returned state; H and S reproduction on the '
+    'multi-component paths (the lever-rule theorem covers one chemical, where H and S are linear in the split)',
+    'oracle scope = the property\'s quantifier: results outside 280–450 K / 2e4–1e6 Pa are only checked for T/P written; '
+    'V, phase-boundary and ideal-vs-RR clauses are not judged with inert material present (T,P flashes with gas only are); '
+    'S checks skip Benzene and Cyclohexane (their liquid entropy in `thermo` is quantised in 2–8 J/mol/K steps)',
+    'not exercised: non-ideal Phi, method=\'shgo\', reactive flashes (gas_conversion / liquid_conversion)',
 ]
 TRUSTED = ['Lean 4.33 kernel', 'harness/props/c04.py + Driver/C04.lean', 'generator reach (see histogram)',
            'thermo/chemicals correlations (Psat, Tsat, Dortmund-UNIFAC γ), flexsolve']
+
+S_NOISE = {}          # id(chemical) -> numerical noise of its liquid entropy, kJ/K/kg
+
+
+def s_noise(chem):
+    """largest second difference of S('l', T) over 0.04 K steps at 60 temperatures (a smooth S contributes < 1e-9)"""
+    worst = 0.
+    for T in np.linspace(285., 445., 60):
+        try:
+            v = [chem.S('l', T + d, 101325.) for d in (-0.04, 0., 0.04)]
+            worst = max(worst, abs(v[0] - 2 * v[1] + v[2]))
+        except Exception:
+            pass
+    return worst / float(chem.MW)
+
 
 tmo = None
 vm = None
@@ -98,6 +125,9 @@ def setup():
         else:
             th = tmo.Thermo(chems, cache=False)
         THERMOS.append((th, ids, kind, name))
+    for th_, ids_, _, _ in THERMOS:
+        for c in th_.chemicals.tuple:
+            if c.ID in ids_ and id(c) not in S_NOISE: S_NOISE[id(c)] = s_noise(c)
     tmo.settings.set_thermo(THERMOS[0][0])
     global K_TOL
     K_TOL = float(vm.VLE.K_tol)       # the exit test is the code's own
@@ -214,10 +244,19 @@ def fl(x):
     return fbits(float(x))
 
 
+def phase_arrays(s):
+    """(liquid, vapour) flow arrays of a MultiStream, or of a single-phase Stream (before its first `.vle` call turns it
+    into a MultiStream)"""
+    if isinstance(s, tmo.MultiStream):
+        return arr(s.imol['l']), arr(s.imol['g'])
+    d = arr(s.imol.data); z = np.zeros_like(d)
+    return (d.copy(), z) if s.phase == 'l' else (z, d.copy())
+
+
 def vle_split(s):
     """(liquid, vapour) flows of the chemicals in equilibrium, light and heavy totals, index"""
     chems = s.chemicals
-    data_l, data_g = arr(s.imol['l']), arr(s.imol['g'])
+    data_l, data_g = phase_arrays(s)
     tot = data_l + data_g
     nz = set(int(i) for i in np.nonzero(tot)[0])
     idx = list(chems.get_vle_indices(nz))
@@ -241,7 +280,8 @@ def build_stream(th, flows_l, flows_g, T, P):
 
 
 def snapshot(s):
-    return (arr(s.imol['l']).copy(), arr(s.imol['g']).copy(), float(s.T), float(s.P))
+    l_, g_ = phase_arrays(s)
+    return (l_.copy(), g_.copy(), float(s.T), float(s.P))
 
 
 def restore(th, snap, k=1.0):
@@ -310,7 +350,13 @@ class Run:
                 if not it: continue
                 cid, val = it.split('=')
                 (fl_ if ph == 'l' else fg_).append((cid, float(val)))
-        self.s = build_stream(self.th, fl_, fg_, T0, P0)
+        if t[0] == 'sfeed':
+            # the other public entry point: a single-phase `Stream` whose `.vle` turns it into a MultiStream in place
+            self.s = tmo.Stream(None, T=T0, P=P0, phase='l', thermo=self.th)
+            for c, v in fl_ + fg_: self.s.imol[c] += v
+            self.tags.append('entry:Stream.vle')
+        else:
+            self.s = build_stream(self.th, fl_, fg_, T0, P0)
         self.key.append((ti, tuple(sorted((c, round(v, 3)) for c, v in fl_ + fg_))))
 
     # ---- resolve a specification token -----------------------------------
@@ -417,6 +463,7 @@ class Run:
                     # numba: "underlying object has vanished" while SAVING a freshly compiled specialisation to its
                     # on-disk cache; the compiled function is in memory afterwards.  Put the stream back and retry.
                     if attempt == 2: raise
+                    if not isinstance(s, tmo.MultiStream): s.phases = ('g', 'l')
                     s.imol['l'] = snap[0]; s.imol['g'] = snap[1]; s.T = snap[2]; s.P = snap[3]
                     REC.update(steps=[], nsolve=0, noeq=False, in_tp=False, Pdew=None, Pbub=None, last=None)
         except (vm.NoEquilibrium,) as e:
@@ -443,7 +490,7 @@ class Run:
         # ---------------- line 1: dispatch ---------------------------------
         psat = float(chem1.Psat(a)) if (chem1 is not None and ka == 'T') else 0.
         tsat = safe_tsat(chem1, a) if (chem1 is not None and ka == "P") else 0.
-        sol = P1 if ka == 'T' else T1
+        sol = float('nan')      # the model is NOT told what the solver delivered: it answers NaN (= unconstrained) for that field
         two_flag = two
         if err == 'NotImplemented': two_flag = False
         elif pair in ('TH', 'TS') and err is None: two_flag = True
@@ -479,6 +526,16 @@ class Run:
                     self.fail('phase-boundary:one:expected-liquid', f'single chemical at P={b} > Psat={ps}: vapour flow {g1[0]}')
                 if b < ps * (1 - 1e-6) - 1e-2 and l1[0] != 0:
                     self.fail('phase-boundary:one:expected-vapour', f'single chemical at P={b} < Psat={ps}: liquid flow {l1[0]}')
+
+        # ---------------- single chemical, H / S specified: the lever rule ---------------
+        if ncase == 'one' and kb in ('H', 'S') and two and err is None:
+            # H (S) of the all-liquid and the all-vapour stream at the returned T, P, from the mixture model directly
+            tot = snap[0] + snap[1]
+            zero = np.zeros_like(tot)
+            cl = restore(th, (tot, zero, T1, P1)); cg = restore(th, (zero, tot, T1, P1))
+            Xb = float(cl.H if kb == 'H' else cl.S); Xd = float(cg.H if kb == 'H' else cg.S)
+            self.emit(f'lever {fl(b)} {fl(Xb)} {fl(Xd)} {fl(mol[0])}', f'lv={fl(l1[0])} gv={fl(g1[0])}')
+            self.tags.append('lever')
 
         # ---------------- TP branch line ------------------------------------------
         if pair == 'TP' and ncase == 'many' and rec['Pdew'] is not None:
@@ -536,7 +593,16 @@ class Run:
         # flexsolve.aitken is called with checkiter=False, checkconvergence=False: when its own divergence test fires
         # or maxiter is reached it returns the current iterate silently; failures of the equilibrium clauses on such
         # a result carry this suffix
-        unconv = ':unconverged-solve' if conv is False else ''
+        unconv = ''
+        if conv is False:
+            # pinned to the documented cause: the recorded iterates of V oscillate (Aitken extrapolation overshooting:
+            # ≥ 3 sign changes of V_out − V_in among the last 12 evaluations) after ≥ 12 evaluations;
+            # any other way of ending unconverged gets a different, unlisted suffix
+            nn_ = len(steps[0]['z'])
+            dv = [float(st['out'][nn_] - st['inp'][nn_]) for st in steps[-12:]]
+            flips = sum(1 for a_, b_ in zip(dv, dv[1:]) if a_ * b_ < 0)
+            # (aitken's own divergence test can fire from its 7th iteration on, i.e. after ≥ 12 evaluations)
+            unconv = ':unconverged-solve' if (flips >= 3 and len(steps) >= 12) else ':unconverged-solve:no-oscillation'
         inert = Fl > 0 or Fh > 0
         Fm = float(s.F_mass)
 
@@ -557,7 +623,10 @@ class Run:
                 pb = float(tmo.equilibrium.BubblePoint(chs, th).solve_Py(mol / F, a)[0])
                 c = restore(th, snap)
                 c.vle(T=a, P=2 * pb)
-                if float(c.H if kb == 'H' else c.S) > b: return ':gas-above-pressure-bracket'
+                if float(c.H if kb == 'H' else c.S) > b:
+                    # … and the documented behaviour is that the call stops AT that bracket end
+                    at_end = abs(P1 - 2 * pb) <= 3 * float(vm.VLE.P_tol) + 1e-6 * P1
+                    return ':gas-above-pressure-bracket' if at_end else ':gas-above-pressure-bracket:not-at-bracket-end'
             except Exception:
                 pass
             return ''
@@ -577,7 +646,10 @@ class Run:
         if kb == 'S' and s_noisy: self.tags.append('S-noisy-skip')
         if kb == 'S' and not s_noisy and hs_ok:
             r = abs(float(s.S) - b) / Fm
-            tol = 3e-4 if ka == 'P' else 2e-6
+            # P,S: S_hat_tol is 1e-6, but the liquid entropies of the `thermo` correlations carry numerical noise (cancellation
+            # in the heat-capacity integrals) that is measured per chemical at set-up; the allowance is 1e-5 + 4 × the largest
+            # noise among the chemicals present, never more than the former blanket 3e-4
+            tol = min(3e-4, 1e-5 + 4 * max([S_NOISE.get(id(th.chemicals.tuple[i]), 0.) for i in idx] or [0.])) if ka == 'P' else 2e-6
             if ka == 'T' and r > tol and spec_ok:
                 tol = max(tol, self.bracket_width('S', a, P1))
             if r > tol:
@@ -595,7 +667,12 @@ class Run:
                     try:
                         c = restore(th, snap)
                         c.vle(T=T1, P=a)
-                        if float(c.S) > b: sfx = ':gas-below-temperature-bracket'
+                        chs_ = [th.chemicals.tuple[i] for i in idx]
+                        bp_ = tmo.equilibrium.BubblePoint(chs_, th)
+                        T_low = 0.9 * float(bp_.solve_Ty(mol / F, a)[0]) + 0.1 * float(bp_.Tmin)
+                        if float(c.S) > b:
+                            # … and the call stopped at (or, after condensing everything, below) that bracket end
+                            sfx = ':gas-below-temperature-bracket' if T1 <= T_low + 1e-6 else ':gas-below-temperature-bracket:not-at-bracket-end'
                     except Exception:
                         pass
                 self.fail(f'S-not-reproduced:{pair}:{ncase}{sfx}', f'specified S={b!r}, stream.S={float(s.S)!r} ({r:.3g} kJ/K/kg, allowed {tol:.3g}); T={T1}, P={P1}')
@@ -632,19 +709,27 @@ class Run:
             elif Pdew * (1 + 1e-5) < b < Pbub * (1 - 1e-5) and not two:
                 self.fail('phase-boundary:expected-two-phase', f'dew {Pdew} < P={b} < bubble {Pbub} at T={a} but one phase is empty')
 
+        # ---------------- oracle X: a specified liquid / vapour composition is the one on the stream ------
+        if kb in ('x', 'y') and two:
+            got = (l1 / l1.sum()) if kb == 'x' else (g1 / g1.sum())
+            if np.abs(got - np.asarray(b, float)).max() > 1e-9:
+                self.fail(f'composition-not-met:{pair}', f'specified {kb}={np.asarray(b)}, resulting {"liquid" if kb == "x" else "vapour"} composition {got}')
+            self.tags.append('xy-composition-checked')
+
         # ---------------- oracle E: iso-fugacity ---------------------------------------
-        if two and pair in ('TP', 'TV', 'PV'):
+        gas_only_TP = pair == 'TP' and Fl > 0 and Fh == 0       # a T,P flash has no bracketing fallbacks: equilibrium must hold with gas too
+        if two and pair in ('TP', 'TV', 'PV', 'Tx', 'Ty', 'Px', 'Py'):
             x = l1 / (l1.sum() + Fh_eff(s, th)); y = g1 / (g1.sum() + Fl)
             flq = tmo.equilibrium.LiquidFugacities(chems, th)(l1 / l1.sum(), T1, P1) * (l1.sum() / (l1.sum() + Fh_eff(s, th)))
             fgs = tmo.equilibrium.GasFugacities(chems, th)(g1 / g1.sum(), T1, P1) * (g1.sum() / (g1.sum() + Fl))
             r = float(np.abs(flq / fgs - 1).max())
             if not inert: self.tags.append('fug<1e-6' if r < 1e-6 else 'fug<1e-5' if r < 1e-5 else 'fug>=1e-5')
             if inert: self.tags.append('fug-inert<1e-5' if r < 1e-5 else 'fug-inert>=1e-5')
-            if r > 2e-5 and not inert:
-                self.fail(f'iso-fugacity:{pair}{unconv}', f'liquid fugacities {flq} vs vapour fugacities {fgs} (max relative gap {r:.3g}) at T={T1}, P={P1}')
+            if r > 2e-5 and (not inert or gas_only_TP):
+                self.fail(f'iso-fugacity:{pair}{":gas" if inert else ""}{unconv}', f'liquid fugacities {flq} vs vapour fugacities {fgs} (max relative gap {r:.3g}) at T={T1}, P={P1}')
 
         # ---------------- oracle F + model line: ideal package vs Raoult Rachford–Rice ------
-        if self.kind == 'ideal' and pair in ('TP', 'TV', 'PV') and not inert:
+        if self.kind == 'ideal' and pair in ('TP', 'TV', 'PV') and (not inert or gas_only_TP):
             Ps = np.array([c.Psat(T1) for c in chems], float)
             K = Ps / P1
             zz = mol / F
@@ -809,7 +894,7 @@ def Fh_eff(s, th):
     chems = th.chemicals
     hi = list(chems._heavy_indices)
     if not hi: return 0.
-    tot = arr(s.imol['l']) + arr(s.imol['g'])
+    tot = sum(phase_arrays(s))
     return float((tot[hi] * chems._heavy_solutes).sum())
 
 
@@ -817,7 +902,7 @@ def run_ops(ops):
     r = Run()
     for line in ops:
         t = line.split(' ')
-        if t[0] == 'feed': r.feed(t)
+        if t[0] in ('feed', 'sfeed'): r.feed(t)
         elif r.s is None: continue
         elif t[0] == 'vle': r.vle(t)
         elif t[0] == 'scale': r.scale(t)
@@ -864,6 +949,7 @@ def compare(impl_line, model_line):
             if not (x.startswith('b') and y.startswith('b')): return False
             fx, fy = from_fbits(x), from_fbits(y)
             if ka in ('T', 'P', 'l', 'g'):
+                if ka in ('T', 'P') and fy != fy: continue     # model: field comes from a numerical solve (parameter)
                 if fx != fy: return False
             elif not _close(fx, fy, 1e-9, 1e-13):
                 return False
@@ -921,6 +1007,7 @@ def gen_feed(rng, ti=None, nvol=None, inert=None):
 
 def gen_case(rng, ti=None):
     feed, k, inert = gen_feed(rng, ti)
+    if rng.random() < 0.15: feed = 's' + feed
     ops = [feed]
     P = round(10 ** rng.uniform(math.log10(2e4), math.log10(6e5 if rng.random() < 0.8 else 1e6)), 1)
     V = round(rng.uniform(0.03, 0.97), 4)
@@ -1001,6 +1088,9 @@ def spec_grid():
             out.append(Case([f, sp]))
             # … and after an earlier flash of the same stream at other conditions
             out.append(Case([f, 'vle PV 150000.0 0.7', sp]))
+    for f in (feeds['one'], feeds['many'], feeds['inert']):
+        for sp in specs:
+            out.append(Case(['s' + f, sp]))        # the same table entered through a single-phase Stream
     for f in (feeds['binary'], feeds['one']):
         for sp in ('vle Tx +3 @', 'vle Ty +3 @', 'vle Px *0.8 @', 'vle Py *0.8 @'):
             out.append(Case([f, 'vle PV 101325.0 0.4', sp]))
